@@ -700,6 +700,39 @@ func runC12(c *Checker) {
 		okPair = ok && staticCalleeIs(call.Common(), "context", "", "WithCancel")
 	}
 	c.decide(okPair, "EXIT", "ctx|cancel pair", body.Pos(), "g.ctx and g.cancel come from one context.WithCancel", "g.cancel does not cancel g.ctx: the transport callbacks are never interrupted by Close")
+	// ... and that context is a child of the one the constructor was given: cancelling the caller's
+	// context is the only way to end a handshake that gets no answer
+	if ng := w.Func("gbn.newGoBackNConn"); ng != nil {
+		okParent := false
+		for _, ci := range findCalls(ng, func(ci ssa.CallInstruction) bool { return staticCalleeIs(ci.Common(), "context", "", "WithCancel") }) {
+			if p, ok := ci.Common().Args[0].(*ssa.Parameter); ok && p.Parent() == ng {
+				okParent = true
+				// every constructor passes its own context parameter on
+				sites, closed := w.CallersOf(ng)
+				idx := -1
+				for i, q := range ng.Params {
+					if q == p {
+						idx = i
+					}
+				}
+				if !closed || len(sites) == 0 || idx < 0 {
+					okParent = false
+				}
+				for _, sx := range sites {
+					if strings.HasSuffix(w.Fset.Position(instrPos(sx.Instr)).Filename, "_test.go") {
+						continue
+					}
+					if a, ok := sx.Instr.Common().Args[idx].(*ssa.Parameter); !ok || a.Parent() != sx.Caller {
+						okParent = false
+					}
+				}
+			}
+		}
+		c.decide(okParent, "EXIT", "ctx|derived from the constructor's context", ng.Pos(), "context.WithCancel(ctx) with ctx the parameter every constructor passes on",
+			"the connection's context is not derived from the context the constructor was given: cancelling that context no longer ends a pending handshake or the transport callbacks")
+	} else {
+		c.anchorFail("gbn.newGoBackNConn")
+	}
 	// queue.stop closes queue.quit; syncer.quit is the queue's quit
 	if qs := w.Func("(*gbn.queue).stop"); qs != nil {
 		okk := len(findCalls(qs, func(ci ssa.CallInstruction) bool {
